@@ -381,24 +381,12 @@ class Tdf:
 
         self._raise_if_unused_slots_not_at_end()
 
-        # the new entry takes the offset of that unused slot
-        new_entry = TdfEntry(
-            type=newBlock.type,
-            format=newBlock.format.value,
-            offset=self.entries[unusedBlockPos].offset,
-            size=newBlock.nBytes,
-            creation_date=newBlock.creation_date,
-            last_modification_date=newBlock.last_modification_date,
-            last_access_date=datetime.now(),
-            comment=comment,
+        # the new entry takes the offset of that unused slot.
+        # The entry and the block are serialised before touching the file, so that
+        # a block or comment that can't be encoded leaves the file as it was
+        new_entry, entry_buffer, block_buffer = self._serialise_entry_and_block(
+            newBlock, comment, self.entries[unusedBlockPos].offset
         )
-
-        # serialise the entry and the block before touching the file, so that a
-        # block or comment that can't be encoded leaves the file as it was
-        entry_buffer = BytesIO()
-        new_entry._write(entry_buffer)
-        block_buffer = BytesIO()
-        newBlock._write(block_buffer)
 
         # replace the entry
         self.entries[unusedBlockPos] = new_entry
@@ -422,6 +410,27 @@ class Tdf:
         # ensure the file is the correct size
         # and that the changes are written to disk
         self.handler.flush()
+
+    @staticmethod
+    def _serialise_entry_and_block(newBlock: Block, comment: str, offset: int):
+        """Build the entry of a block to be stored at the given offset and serialise
+        both. Raises if the entry (format, dates, comment) or the block
+        can't be encoded."""
+        new_entry = TdfEntry(
+            type=newBlock.type,
+            format=newBlock.format.value,
+            offset=offset,
+            size=newBlock.nBytes,
+            creation_date=newBlock.creation_date,
+            last_modification_date=newBlock.last_modification_date,
+            last_access_date=datetime.now(),
+            comment=comment,
+        )
+        entry_buffer = BytesIO()
+        new_entry._write(entry_buffer)
+        block_buffer = BytesIO()
+        newBlock._write(block_buffer)
+        return new_entry, entry_buffer, block_buffer
 
     def _raise_if_unused_slots_not_at_end(self) -> None:
         """Raise if there is a live block after an unused slot"""
@@ -567,8 +576,7 @@ class Tdf:
 
         # make sure the new block can be added before the old one is removed
         self._raise_if_unused_slots_not_at_end()
-        newBlock._write(BytesIO())
-        BTSString.write(256, comment)
+        self._serialise_entry_and_block(newBlock, comment, old_entry.offset)
 
         self.remove_block(newBlock.type)
         self.add_block(newBlock, comment)
